@@ -137,7 +137,7 @@ def main(seed, ncalls):
     try:
         for i in range(ncalls):
             v = gen_value(rng)
-            kind = rng.choice(["ident", "ident", "setget", "kw", "boom", "chatty"])
+            kind = rng.choice(["ident", "ident", "setget", "kw", "boom", "chatty", "execget"])
             bump(kind)
             try:
                 if kind == "ident":
@@ -147,6 +147,13 @@ def main(seed, ncalls):
                 elif kind == "kw":
                     w = gen_value(rng)
                     judge("kw(a=%r, b=%r): result" % (v, w), [v, w], from_data(with_deadline(lambda: p.kw(a=v, b=w), "kw")))
+                elif kind == "execget":
+                    # a variable assigned by a remote script, then read back (and one that shadows an earlier set())
+                    name = "e%d" % i
+                    if rng.random() < 0.5:
+                        with_deadline(lambda: p.set(name, 7), "set")
+                    with_deadline(lambda: p.execute_script("%s = %r" % (name, v)), "execute_script")
+                    judge("execute_script(%s = %r); get: result" % (name, v), v, from_data(with_deadline(lambda: p.get(name), "get")))
                 elif kind == "setget":
                     name = "v%d" % i
                     with_deadline(lambda: p.set(name, v), "set(%r)" % (v,))
